@@ -28,10 +28,11 @@ impl<'a> RtcpPacketParser<'a> for Sdes<'a> {
         let mut chunks = vec![];
         if data.len() > Self::MIN_PACKET_LEN {
             let mut offset = Self::MIN_PACKET_LEN;
+            let end = data.len() - parser::parse_padding(data).unwrap_or(0) as usize;
 
-            while offset < data.len() {
-                let (chunk, end) = SdesChunk::parse(&data[offset..])?;
-                offset += end;
+            while offset < end {
+                let (chunk, chunk_len) = SdesChunk::parse(&data[offset..end])?;
+                offset += chunk_len;
                 chunks.push(chunk);
             }
         }
